@@ -246,6 +246,25 @@ static void const_walk(M &m, K key, size_t bound, const char *what) {
 	if(a != b) vh::oracle("refmap", "%s: const_iterator walk from find() const yields %zu entries, the mutable iterator %zu (or contents differ)", what, b.size(), a.size());
 }
 
+// every const-qualified member through a `const hash_map &` (find() const, end() const, size() const, the
+// const_iterator's operator bool/==/->), on whatever state the map is in -- never populated (_capacity == 0, _table == nullptr),
+// populated, emptied again. `want` is what the non-const get(Key) returned. hash_map has no begin() const / get() const /
+// empty() const; this is all of its const interface.
+template<class K, class M>
+static void const_view(M &m, K key, const HV *want, unsigned long long shown, const char *what) {
+	const M &cm = m;
+	if(cm.size() != m._size) vh::oracle("refmap", "%s: size() const = %zu, _size = %zu", what, cm.size(), (size_t)m._size);
+	auto cend = cm.end();
+	if(bool(cend)) vh::oracle("refmap", "%s: end() const converts to true", what);
+	if(!(cend == cm.end())) vh::oracle("refmap", "%s: end() const is not equal to itself", what);
+	auto cit = cm.find(key);
+	bool hit = !(cit == cend);
+	if(hit != bool(cit)) vh::oracle("refmap", "%s: find(%llu) const: comparison with end() says %s, operator bool says %s", what, shown, hit ? "present" : "absent", bool(cit) ? "present" : "absent");
+	if(hit != (want != nullptr)) vh::oracle("refmap", "%s: find(%llu) const says %s, get() says %s", what, shown, hit ? "present" : "absent", want ? "present" : "absent");
+	else if(hit && &cit->template get<1>() != want) vh::oracle("refmap", "%s: find(%llu) const points at a different node than get()", what, shown);
+	else if(hit && !(key_u64(cit->template get<0>()) == key_u64(key))) vh::oracle("refmap", "%s: find(%llu) const returned another key", what, shown);
+}
+
 // the script on one map; caller_hasher is the harness's own Hasher object ("reseed" changes it)
 template<class K, class M>
 static void run_ops(M &m, const vh::Lines &ls, size_t start, Hasher &caller_hasher, std::unordered_map<uint64_t, uint64_t> &ref) {
@@ -279,6 +298,7 @@ static void run_ops(M &m, const vh::Lines &ls, size_t start, Hasher &caller_hash
 				HV *p = get_all(m, KeyConv<K>::to(k));
 				auto it = m.find(KeyConv<K>::to(k));
 				if((p != nullptr) != bool(it)) vh::oracle("refmap", "get and find disagree on key %llu", (unsigned long long)k);
+				const_view(m, KeyConv<K>::to(k), p, (unsigned long long)k, ls[i].c_str());
 				if(p) const_walk(m, KeyConv<K>::to(k), ref.size() + 8, ls[i].c_str());
 				uint64_t val = p ? p->get() : 0;
 				if(p) printf("v %llu\n", (unsigned long long)val); else printf("v none\n");
@@ -293,6 +313,7 @@ static void run_ops(M &m, const vh::Lines &ls, size_t start, Hasher &caller_hash
 				if((rit != ref.end()) != bool(r)) vh::oracle("refmap", "remove(%llu) %s but reference %s", (unsigned long long)k, r ? "returned a value" : "returned nothing", rit != ref.end() ? "has it" : "does not");
 				else if(r && r->get() != rit->second) vh::oracle("refmap", "remove(%llu) returned a wrong value", (unsigned long long)k);
 				if(rit != ref.end()) ref.erase(rit);
+				const_view(m, KeyConv<K>::to(k), (const HV *)m.get(KeyConv<K>::to(k)), (unsigned long long)k, ls[i].c_str());
 			} else if(o == "it") {
 				printf("l");
 				std::vector<std::pair<uint64_t, uint64_t>> seen;
@@ -316,6 +337,8 @@ static void run_ops(M &m, const vh::Lines &ls, size_t start, Hasher &caller_hash
 				printf("v %zu\n", m.size());
 				if(m.size() != ref.size()) vh::oracle("refmap", "size() = %zu, reference %zu", m.size(), ref.size());
 				if(m.empty() != ref.empty()) vh::oracle("refmap", "empty() disagrees with the reference");
+				{ const M &cm = m; if(cm.size() != ref.size()) vh::oracle("refmap", "size() const = %zu, reference %zu", cm.size(), ref.size());
+				  if(!(cm.end() == cm.end()) || bool(cm.end())) vh::oracle("refmap", "end() const is not a proper end iterator"); }
 			} else continue;
 			printf("e%s\n", g_ev.c_str());
 			dump_table(m);
